@@ -21,7 +21,8 @@ from dataclasses import dataclass, field
 from typing import Any, Callable, Sequence
 
 WORKERS = int(os.environ.get("VERIF_WORKERS", "0")) or min(16, os.cpu_count() or 4)
-CASE_TIMEOUT_S = float(os.environ.get("VERIF_CASE_TIMEOUT", "20"))
+# CPU seconds (ITIMER_PROF): robust against machine load; a genuine hang burns CPU and is caught
+CASE_TIMEOUT_S = float(os.environ.get("VERIF_CASE_TIMEOUT", "60"))
 MAX_VIOLATIONS_KEPT = 4000
 MAX_PER_DESCRIPTOR = 40
 
@@ -100,8 +101,8 @@ def _jsonable(case: Any) -> Any:
 
 def run_case(check: Callable, case: Any, subcheck: str) -> Res:
     """Run one case under the watchdog; escapes become violations."""
-    signal.signal(signal.SIGALRM, _alarm)
-    signal.setitimer(signal.ITIMER_REAL, CASE_TIMEOUT_S)
+    signal.signal(signal.SIGPROF, _alarm)
+    signal.setitimer(signal.ITIMER_PROF, CASE_TIMEOUT_S)
     try:
         r = check(case)
         if r is None:
@@ -110,7 +111,7 @@ def run_case(check: Callable, case: Any, subcheck: str) -> Res:
     except CaseTimeout:
         return Res(outcome="TIMEOUT", violations=[dict(
             subcheck=subcheck, descriptor="watchdog-timeout", case=_jsonable(case),
-            observed=f"no result within {CASE_TIMEOUT_S}s", expected="termination")])
+            observed=f"no result within {CASE_TIMEOUT_S} CPU-seconds", expected="termination")])
     except RecursionError:
         return Res(outcome="RecursionError", violations=[dict(
             subcheck=subcheck, descriptor="harness-escape:RecursionError", case=_jsonable(case),
@@ -123,7 +124,7 @@ def run_case(check: Callable, case: Any, subcheck: str) -> Res:
             subcheck=subcheck, descriptor=f"unexpected-exception:{type(e).__name__}@{site}",
             case=_jsonable(case), observed=f"{type(e).__name__}: {e}"[:400], expected="no exception")])
     finally:
-        signal.setitimer(signal.ITIMER_REAL, 0)
+        signal.setitimer(signal.ITIMER_PROF, 0)
 
 
 def _run_chunk(rng: tuple[int, int]) -> dict:
